@@ -1,6 +1,7 @@
 import Driver.Util
 import MpcVerif.Model.Equiv
 import MpcVerif.Model.Levels
+import MpcVerif.Model.Passes
 
 namespace Drv.C09
 open Mpc Drv
@@ -28,7 +29,75 @@ def strictFast (c : Circuit) (l : List (Gate × Nat)) : Bool :=
   l.all fun a => a.1.ins.all fun w =>
     decide (w < c.nIn) || (match prod.getD w none with | some lh => decide (lh < a.2) | none => false)
 
+/-! ### builder graph: parsing, canonical renumbering, printing (untrusted glue) -/
+
+def parseWVal (s : String) : Option WVal :=
+  match s with | "0" => some .unknown | "1" => some .zero | "2" => some .one | _ => none
+
+def parseBWire (s : String) : Option BWire :=
+  match s.splitOn ":" with
+  | [v, o, n, i, outs] => do
+    let v ← parseWVal v
+    let n ← n.toNat?
+    let i ← if i == "-" then some none else i.toNat?.map some
+    let outs ← parseNats outs
+    some { value := v, isOut := o == "1", numOut := n, input := i, outs := outs }
+  | _ => none
+
+def parseBGate (s : String) : Option BGate := do
+  let c ← s.toList.head?
+  let op ← parseOp c
+  match ((s.drop 1).toString.splitOn ".") with
+  | [a, b, o, d] => some { op := op, a := ← a.toNat?, b := ← b.toNat?, o := ← o.toNat?, dead := d == "1" }
+  | _ => none
+
+def parseGraph (nin zero one outs wires gates : String) : Option Graph := do
+  let ws ← (wires.splitOn ";").mapM parseBWire
+  let gs ← if gates == "-" then some [] else (gates.splitOn ";").mapM parseBGate
+  some { nIn := ← nin.toNat?, zero := ← zero.toNat?, one := ← one.toNat?, outputs := (← parseNats outs).toList,
+         wires := ws.toArray, gates := gs.toArray }
+
+/-- Canonical dump (same traversal as harness/cmd/c09/graph.go): wires are
+renumbered by first occurrence over inputs, gates (A, B, O), outputs, zero,
+one; gate indices are kept. -/
+def dumpGraph (G : Graph) : String := Id.run do
+  let mut m : Array (Option Nat) := Array.replicate G.wires.size none
+  let mut order : Array Nat := #[]
+  let see := fun (st : Array (Option Nat) × Array Nat) (w : Nat) =>
+    match st.1.getD w (some 0) with
+    | some _ => st
+    | none => (st.1.setIfInBounds w (some st.2.size), st.2.push w)
+  let mut st := (m, order)
+  for w in [0:G.nIn] do st := see st w
+  for g in G.gates do
+    st := see st g.a
+    if g.op != .inv then st := see st g.b
+    st := see st g.o
+  for w in G.outputs do st := see st w
+  st := see st G.zero
+  st := see st G.one
+  m := st.1
+  order := st.2
+  let id := fun w => (m.getD w none).getD 0
+  let opc := fun (o : Op) => match o with
+    | .xor => "x" | .xnor => "n" | .and => "a" | .or => "o" | .inv => "i"
+  let gs := G.gates.toList.map fun g =>
+    s!"{opc g.op}{id g.a}.{if g.op == .inv then 0 else id g.b}.{id g.o}.{if g.dead then 1 else 0}"
+  let ws := order.toList.map fun w =>
+    let x := G.wire w
+    let v := match x.value with | .unknown => 0 | .zero => 1 | .one => 2
+    let i := match x.input with | none => "-" | some k => toString k
+    s!"{v}:{if x.isOut then 1 else 0}:{x.numOut}:{i}:{natsStr x.outs.toList}"
+  let gstr := if gs.isEmpty then "-" else ";".intercalate gs
+  s!"{G.nIn} {id G.zero} {id G.one} {natsStr (G.outputs.map id)} {";".intercalate ws} {gstr}"
+
+def circLine (c : Circuit) : String :=
+  s!"{c.numWires} {c.nIn} {c.nOut} {gatesStr c.gates}"
+
 /--
+* `pass <tag> <kind> <nIn> <zero> <one> <outputs> <wires> <gates>` → the graph after the
+  modelled pass (`cp`, `sc`, `prune`), canonically renumbered, or the compiled circuit line
+  (`compile-yao`, `compile-gmw`); `panic` where the Go code would panic
 * `pair <tag> <nw> <nin> <nout> <gates> <nw'> <nin'> <nout'> <gates'> <witC> <witC'> <x,x,...>`
   → `chk=<diag>;c=<C.compute x ...>;c2=<C'.compute x ...>`
 * `lvl <tag> <gmw> <nw> <nin> <nout> <gates>` → `lv=<levels>;max=<n>;width=<n>`
@@ -47,6 +116,17 @@ def handle (args : List String) : String :=
       let o2 := ",".intercalate (xl.map fun x => bitsStr (c'.compute x))
       s!"chk={diag};c={o1};c2={o2}"
     | _, _, _, _ => "bad-op"
+  | ["pass", _tag, kind, nin, zero, one, outs, wires, gates] =>
+    match parseGraph nin zero one outs wires gates with
+    | none => "bad-op"
+    | some G =>
+      match kind with
+      | "cp" => match G.constPropagate with | some G' => dumpGraph G' | none => "panic"
+      | "sc" => dumpGraph G.shortCircuitXORZero
+      | "prune" => match G.prune with | some G' => dumpGraph G' | none => "panic"
+      | "compile-yao" => match G.compile false with | some c => circLine c | none => "panic"
+      | "compile-gmw" => match G.compile true with | some c => circLine c | none => "panic"
+      | _ => "bad-op"
   | ["lvl", _tag, gmw, nw, nin, nout, gates] =>
     match parseCircuit nw nin nout gates with
     | some c =>
